@@ -150,6 +150,12 @@ func (a *ConstFuncParamAnnotator) visitCall(callee *ast.FuncDecl, args map[strin
 		isConst = attachement.(ConstFuncParamMeta).IsConst
 	}
 
+	// a recursive call: the flags of the function that is being analysed are still the optimistic initial ones
+	// (a parameter that is changed further down in the body still counts as constant), so nothing is known about them yet
+	if callee == a.currentDecl {
+		isConst = nil
+	}
+
 	currentParams := maps.Keys(a.currentParams)
 	for _, param := range callee.Parameters {
 		if isConst[param.Name.Literal] {
